@@ -18,7 +18,29 @@ T == ndJsonDeserialize(IOEnv.TRACE)
 
 OpName(ev) ==
   CASE ev[1] = 1 -> "get_char" [] ev[1] = 2 -> "get_position" [] ev[1] = 3 -> "set_position"
-    [] ev[1] = 4 -> "set_bad" [] ev[1] = 5 -> "literal" [] ev[1] = 6 -> "char_set" [] OTHER -> "unknown"
+    [] ev[1] = 4 -> "set_bad" [] ev[1] = 5 -> "literal" [] ev[1] = 6 -> "char_set"
+    [] ev[1] = 7 -> "position_equal" [] ev[1] = 8 -> "location_output" [] ev[1] = 9 -> "get_char_error"
+    [] ev[1] = 10 -> "string" [] OTHER -> "unknown"
+
+(* Scope (docs/EXTENSION_BRIEF.md, clarification): an inexplicable event is a VIOLATION of C12 only if
+   the STATEMENT of C12 covers it; everything else is an observation.
+   - stream kind 0 (std::basic_istringstream), calls get_char / get_position / set_position / badbit /
+     literal / char_set: "For every input text and every interleaving of reading characters and restoring
+     previously obtained positions, the stream's position denotes the offset of the next unread character
+     together with line ... and column ..., and restoring a saved position makes all subsequent reads and
+     positions identical ... Error messages of the character-level parsers carry the location immediately
+     after the offending character, and end of input or a failing underlying stream yields a failure,
+     never a character."  (quantifier: "all sequences of get_char / get_position / set_position(saved)
+     operations, for char and wchar_t streams")
+   - stream kind 3 (a stream buffer that fails at an offset): only the clause "a failing underlying
+     stream yields a failure, never a character".
+   - everything else added in the extension round (std::basic_stringstream, the non-seekable buffer,
+     position equality, location output, get_char_error's "EOF", the string parser) is OBSERVED ONLY. *)
+NeverACharacter == {"character-from-bad-stream", "character-from-failing-stream", "success-on-bad-stream",
+                    "success-on-failing-stream"}
+InScope(skind, ev, why) ==
+  \/ skind = 0 /\ ev[1] \in 1..6
+  \/ skind = 3 /\ ev[1] \in {1, 5, 6} /\ why \cap NeverACharacter # {}
 
 WellFormed(ev, nsaved) ==
   /\ Len(ev) >= 1
@@ -28,14 +50,19 @@ WellFormed(ev, nsaved) ==
        [] ev[1] = 4 -> Len(ev) = 1
        [] ev[1] = 5 -> Len(ev) = 5 /\ ev[3] \in {1, 0, -1, -2}
        [] ev[1] = 6 -> Len(ev) = 6 /\ ev[3] \in {1, 0, -1, -2}
+       [] ev[1] = 7 -> Len(ev) = 4 /\ ev[2] \in 0..(nsaved - 1) /\ ev[3] \in 0..(nsaved - 1) /\ ev[4] \in {0, 1}
+       [] ev[1] = 8 -> Len(ev) = 4 /\ ev[2] \in 0..(nsaved - 1)
+       [] ev[1] = 9 -> Len(ev) = 2
+       [] ev[1] = 10 -> Len(ev) = 5 /\ ev[3] \in {1, 0, -1, -2}
        [] OTHER -> FALSE
 
-(* reasons why event ev is not explained in state s = [off, bad], saved = <<offsets>> *)
+(* reasons why event ev is not explained in state s = [off, bad, failat, noseek, unk], saved = <<offsets>> *)
 CharParserWhy(tx, s, accepts(_), res, line, col, ch) ==
   LET m == ModelCharParser(tx, s, accepts) IN
   IF ExplainsCharParser(tx, s, accepts, res, line, col, ch) THEN {}
   ELSE IF s.bad THEN {"success-on-bad-stream"}
-  ELSE IF res = -2 THEN {"exception"}
+  ELSE IF Hits(s) THEN {"success-on-failing-stream"}
+  ELSE IF res = -2 THEN (IF s.noseek /\ m.res = 0 THEN {} ELSE {"exception"})   \* no position on a non-seekable stream
   ELSE IF AtEnd(tx, s.off) THEN {"success-at-end-of-input"}
   ELSE IF m.res = 1 THEN (IF res # 1 THEN {"failure-on-accepted-character"} ELSE {"wrong-character"})
   ELSE IF res = 1 THEN {"success-on-rejected-character"}
@@ -44,41 +71,70 @@ CharParserWhy(tx, s, accepts(_), res, line, col, ch) ==
 
 EvWhy(tx, s, saved, ev) ==
   IF ~WellFormed(ev, Len(saved)) THEN {"HARNESS-PRECONDITION"}
+  ELSE IF s.unk /\ ev[1] \in {1, 2, 5, 6, 9, 10} THEN {}   \* offset unknown after a failed string parser: not judged
   ELSE CASE ev[1] = 1 ->
               IF ExplainsGetChar(tx, s, ev[2]) THEN {}
               ELSE IF s.bad THEN {"character-from-bad-stream"}
+              ELSE IF Hits(s) THEN {"character-from-failing-stream"}
               ELSE IF ev[2] = -2 THEN {"exception"}
               ELSE IF AtEnd(tx, s.off) THEN {"character-at-end-of-input"}
               ELSE IF ev[2] = -1 THEN {"nothing-before-end-of-input"}
               ELSE {"wrong-character"}
          [] ev[1] = 2 ->
-              IF ExplainsGetPosition(tx, s, ev) THEN {}
+              IF ExplainsGetPosition(tx, s, ev) \/ (s.noseek /\ Len(ev) = 2) THEN {}
               ELSE IF Len(ev) = 2 THEN {"exception"}
               ELSE (IF ev[3] # s.off THEN {"offset"} ELSE {})
                    \cup (IF ev[4] # Line(tx, s.off) THEN {"line"} ELSE {})
                    \cup (IF ev[5] # Col(tx, s.off) THEN {"column"} ELSE {})
-         [] ev[1] = 3 -> IF ExplainsSetPosition(s, ev) THEN {} ELSE {"exception"}
+         [] ev[1] = 3 -> IF ExplainsSetPosition(s, ev) \/ s.noseek THEN {} ELSE {"exception"}
          [] ev[1] = 4 -> {}
          [] ev[1] = 5 -> CharParserWhy(tx, s, LAMBDA x : x = ev[2], ev[3], ev[4], ev[5], ev[2])
          [] ev[1] = 6 -> CharParserWhy(tx, s, LAMBDA x : InSeq(x, ev[2]), ev[3], ev[4], ev[5], ev[6])
+         [] ev[1] = 7 -> IF ev[4] = ModelPosEq(saved[ev[2] + 1], saved[ev[3] + 1]) THEN {} ELSE {"equality"}
+         [] ev[1] = 8 -> LET o == saved[ev[2] + 1] IN
+                         IF ev[3] = Line(tx, o) /\ ev[4] = Col(tx, o) THEN {} ELSE {"not-line-colon-column"}
+         [] ev[1] = 9 ->
+              IF ExplainsGetCharError(tx, s, ev[2]) THEN {}
+              ELSE IF s.bad \/ Hits(s) THEN {"character-from-failing-stream"}
+              ELSE IF ev[2] = -3 /\ AtEnd(tx, s.off) THEN {"message-is-not-EOF"}
+              ELSE IF ev[2] < 0 /\ ~AtEnd(tx, s.off) THEN {"failure-before-end-of-input"}
+              ELSE IF ev[2] = -2 THEN {"exception"}
+              ELSE {"wrong-character"}
+         [] ev[1] = 10 ->
+              IF s.bad THEN (IF ev[3] = 1 THEN {"success-on-bad-stream"} ELSE {})
+              ELSE IF StringMatches(tx, s, ev[2]) THEN (IF ev[3] = 1 THEN {} ELSE {"failure-on-matching-input"})
+              ELSE IF ev[3] = 1 THEN {"success-on-other-input"}
+              ELSE IF ev[3] = -2 /\ s.failat < 0 THEN {"exception"}
+              ELSE {}
 
 (* state after an explained event *)
+AfterRead(s, off) == [s EXCEPT !.off = off, !.bad = BadAfterRead(s)]
 NextS(tx, s, saved, ev) ==
-  CASE ev[1] = 1 -> [s EXCEPT !.off = OffAfterGetChar(tx, s, ev[2])]
-    [] ev[1] = 3 -> IF s.bad THEN s ELSE [s EXCEPT !.off = saved[ev[2] + 1]]
+  IF s.unk /\ ev[1] \in {1, 2, 5, 6, 9, 10} THEN s
+  ELSE CASE ev[1] \in {1, 9} -> AfterRead(s, OffAfterGetChar(tx, s, ev[2]))
+    [] ev[1] = 3 -> IF s.bad \/ ev[3] # 0 THEN s ELSE [s EXCEPT !.off = saved[ev[2] + 1], !.unk = FALSE]
     [] ev[1] = 4 -> [s EXCEPT !.bad = TRUE]
-    [] ev[1] = 5 -> IF s.bad THEN s ELSE [s EXCEPT !.off = ModelCharParser(tx, s, LAMBDA x : x = ev[2]).off]
-    [] ev[1] = 6 -> IF s.bad THEN s ELSE [s EXCEPT !.off = ModelCharParser(tx, s, LAMBDA x : InSeq(x, ev[2])).off]
+    [] ev[1] = 5 -> IF s.bad THEN s ELSE AfterRead(s, ModelCharParser(tx, s, LAMBDA x : x = ev[2]).off)
+    [] ev[1] = 6 -> IF s.bad THEN s ELSE AfterRead(s, ModelCharParser(tx, s, LAMBDA x : InSeq(x, ev[2])).off)
+    [] ev[1] = 10 -> IF s.bad THEN s
+                     ELSE IF ev[3] = 1 THEN [s EXCEPT !.off = s.off + Len(ev[2])]
+                     ELSE [s EXCEPT !.unk = TRUE, !.bad = (s.failat >= 0)]   \* may have hit the failing offset
     [] OTHER -> s
-NextSaved(s, saved, ev) == IF ev[1] = 2 /\ Len(ev) = 5 THEN Append(saved, s.off) ELSE saved
+(* while the offset is unknown a handed-out position is remembered with the offset it reports *)
+NextSaved(s, saved, ev) ==
+  IF ev[1] = 2 /\ Len(ev) = 5 THEN Append(saved, IF s.unk \/ s.bad THEN ev[3] ELSE s.off) ELSE saved
 
-RECURSIVE RunHist(_, _, _, _, _)
-RunHist(tx, s, saved, evs, k) ==
-  IF k > Len(evs) THEN [k |-> 0, op |-> "hist", why |-> {}]
+(* entries for one history: every observed-only disagreement of the pure observers (7, 8), and the first
+   other inexplicable event, after which the state is no longer known *)
+RECURSIVE RunHist(_, _, _, _, _, _, _)
+RunHist(skind, tx, s, saved, evs, k, acc) ==
+  IF k > Len(evs) THEN acc
   ELSE LET ev == evs[k]
            w == EvWhy(tx, s, saved, ev)
-       IN IF w # {} THEN [k |-> k, op |-> OpName(ev), why |-> w]
-          ELSE RunHist(tx, NextS(tx, s, saved, ev), NextSaved(s, saved, ev), evs, k + 1)
+           e == [k |-> k, op |-> OpName(ev), why |-> w, scope |-> InScope(skind, ev, w) \/ "HARNESS-PRECONDITION" \in w]
+       IN IF w # {} /\ ev[1] \notin {7, 8} THEN Append(acc, e)
+          ELSE RunHist(skind, tx, NextS(tx, s, saved, ev), NextSaved(s, saved, ev), evs, k + 1,
+                       IF w # {} THEN Append(acc, e) ELSE acc)
 
 (* phrase_parse_string(literal / char_set, tx, *char_set(space_set)):
    the skipper consumes the maximal prefix of ' ', '\n', '\t'; then one character parser; the
@@ -118,11 +174,15 @@ ScanWhy(r) ==
           \cup (IF r.p2 = Flat(k) THEN {} ELSE {"positions-after-rewind"})
           \cup (IF r.c2 = SubSeq(r.text, k + 1, n) \o <<-1>> THEN {} ELSE {"characters-after-rewind"})
 
+One(op, why) == IF why = {} THEN <<>> ELSE <<[k |-> 0, op |-> op, why |-> why, scope |-> TRUE]>>
 Judge(r) ==
-  IF r.f = "hist" THEN RunHist(r.text, [off |-> 0, bad |-> FALSE], <<>>, r.ev, 1)
-  ELSE IF r.f = "scan" THEN [k |-> 0, op |-> "scan", why |-> ScanWhy(r)]
-  ELSE IF r.f = "entry" THEN [k |-> 0, op |-> IF r.kind = 5 THEN "entry_literal" ELSE "entry_char_set", why |-> EntryWhy(r)]
-  ELSE [k |-> 0, op |-> "unknown", why |-> {"HARNESS-PRECONDITION"}]
+  IF r.f = "hist"
+  THEN RunHist(r.sk, r.text, [off |-> 0, bad |-> FALSE, failat |-> IF r.sk = 3 THEN r.fa ELSE -1, noseek |-> r.sk = 2,
+                              unk |-> FALSE], <<>>, r.ev, 1, <<>>)
+  \* scan and entry records (std::basic_istringstream): positions / rewinding / error location clauses
+  ELSE IF r.f = "scan" THEN One("scan", ScanWhy(r))
+  ELSE IF r.f = "entry" THEN One(IF r.kind = 5 THEN "entry_literal" ELSE "entry_char_set", EntryWhy(r))
+  ELSE One("unknown", {"HARNESS-PRECONDITION"})
 
 TInit == l = 1 /\ bad = <<>> /\ nbad = 0 /\ text = <<>> /\ st = [off |-> 0, bad |-> FALSE, saved |-> {}] /\ hist = <<>>
 TNext ==
@@ -130,9 +190,11 @@ TNext ==
   /\ l' = l + 1
   /\ UNCHANGED <<text, st, hist>>   \* the model's variables are not used by the judge
   /\ LET j == Judge(T[l]) IN
-     IF j.why = {} THEN UNCHANGED <<bad, nbad>>
-     ELSE /\ nbad' = nbad + 1
-          /\ bad' = IF nbad < 300 THEN Append(bad, [l |-> l, op |-> j.op, why |-> j.why, k |-> j.k]) ELSE bad
+     IF j = <<>> THEN UNCHANGED <<bad, nbad>>
+     ELSE /\ nbad' = nbad + Len(j)
+          /\ bad' = IF nbad < 300
+                     THEN bad \o [i \in 1..Len(j) |-> [l |-> l, op |-> j[i].op, why |-> j[i].why, k |-> j[i].k, scope |-> j[i].scope]]
+                     ELSE bad
 TSpec == TInit /\ [][TNext]_tvars
 
 Verdict == (l = Len(T) + 1) => PrintT("VERDICT " \o ToJson([n |-> Len(T), nbad |-> nbad, bad |-> bad]))
